@@ -37,36 +37,36 @@ type Obligation struct {
 }
 
 type Exec struct {
-	W       *World
-	fn      *ssa.Function
-	spec    *FuncSpec
-	beh     *Behavior
-	bv      bool
-	arr     bool
-	theory  string
-	obls    []*Obligation
-	paths   int
-	returns int
-	quiet   int // >0: discovery mode, no obligations
-	errs    []string
-	ghost   map[string]Value
-	assumed map[string]bool
-	ordinal map[ssa.Instruction]int
-	globals map[string]*Obj
-	gvals   map[*Obj]Value
-	gfacts  []*Term
-	errIDs  map[string]*Term
-	maxPath int
-	curPath int
-	inl     []string // inline stack (names)
-	entry   *entryCtx
-	strs    map[string]*Term
-	trace   bool
+	W        *World
+	fn       *ssa.Function
+	spec     *FuncSpec
+	beh      *Behavior
+	bv       bool
+	arr      bool
+	theory   string
+	obls     []*Obligation
+	paths    int
+	returns  int
+	quiet    int // >0: discovery mode, no obligations
+	errs     []string
+	ghost    map[string]Value
+	assumed  map[string]bool
+	ordinal  map[ssa.Instruction]int
+	globals  map[string]*Obj
+	gvals    map[*Obj]Value
+	gfacts   []*Term
+	errIDs   map[string]*Term
+	maxPath  int
+	curPath  int
+	inl      []string // inline stack (names)
+	entry    *entryCtx
+	strs     map[string]*Term
+	trace    bool
 	retFacts [][]*Term
-	qctr    int
-	bufSrc  map[*Obj]*Obj
-	lazy    map[*Obj]Value
-	aliasOf map[*Obj]*Obj
+	qctr     int
+	bufSrc   map[*Obj]*Obj
+	lazy     map[*Obj]Value
+	aliasOf  map[*Obj]*Obj
 }
 
 type entryCtx struct {
@@ -77,21 +77,21 @@ type entryCtx struct {
 }
 
 type loopCtx struct {
-	header  *ssa.BasicBlock
-	variant *Term
-	entry   *State             // state at loop entry (before havoc)
+	header    *ssa.BasicBlock
+	variant   *Term
+	entry     *State // state at loop entry (before havoc)
 	entryRegs map[ssa.Value]Value
-	spec    *LoopSpec
-	parent  *loopCtx
-	discover *discoverCtx
-	fr      *Frame
-	name    string
-	iter    *Term
+	spec      *LoopSpec
+	parent    *loopCtx
+	discover  *discoverCtx
+	fr        *Frame
+	name      string
+	iter      *Term
 }
 
 type discoverCtx struct {
-	head *State
-	mods map[*Obj]bool
+	head     *State
+	mods     map[*Obj]bool
 	leafMods map[*Obj][][]int
 }
 
@@ -974,6 +974,27 @@ func (x *Exec) binop(st *State, in ssa.Instruction, o token.Token, a, b Value, x
 			return Mod(bt, Pow2(m))
 		}
 	}
+	// single-bit masks: x | 2^k, x & 2^k, x &^ 2^k on non-negative values
+	if o == token.OR || o == token.AND || o == token.AND_NOT {
+		a1, b1 := at, bt
+		if k, ok := singleBit(a1); ok && o == token.OR {
+			a1, b1 = b1, a1
+			_ = k
+		}
+		if k, ok := singleBit(b1); ok {
+			if l, _, known := x.bounds(a1); known && l.Sign() >= 0 {
+				set := Eq(Mod(Div(a1, Pow2(k)), IntLit(2)), IntLit(1))
+				switch o {
+				case token.OR:
+					return x.wrap(Ite(set, a1, Add(a1, Pow2(k))), rt)
+				case token.AND:
+					return Ite(set, Pow2(k), IntLit(0))
+				case token.AND_NOT:
+					return Ite(set, Sub(a1, Pow2(k)), a1)
+				}
+			}
+		}
+	}
 	// bit operation not expressible over mathematical integers: uninterpreted (obligations depending on it will not prove)
 	x.fail(fmt.Sprintf("bit operation %s in integer mode at %s (use mode bv)", o, x.posOf(in)))
 	return App("bitop."+o.String(), SInt, at, bt)
@@ -984,6 +1005,16 @@ func (x *Exec) posOf(in ssa.Instruction) string {
 		return "?"
 	}
 	return x.W.pos(in.Pos())
+}
+
+func singleBit(t *Term) (int, bool) {
+	if t.Op != "int" || t.Num.Sign() <= 0 {
+		return 0, false
+	}
+	if new(big.Int).And(t.Num, new(big.Int).Sub(t.Num, big.NewInt(1))).Sign() == 0 {
+		return t.Num.BitLen() - 1, true
+	}
+	return 0, false
 }
 
 func maskBits(t *Term) (int, bool) {
